@@ -45,6 +45,7 @@ struct World
         std::uint8_t   clobber;          // Get CRC / Read accepted since the last accepted Start Flash (labels only)
         std::uint8_t   synced;           // clean session: content and checksum oracles are on
         std::uint8_t   flushed;          // Flush accepted in this session
+        std::uint8_t   tentative;        // another control point procedure was interleaved: the session goes on iff the next data write / Flush is accepted
         std::uint8_t   prog_ok;          // progress notifications of this session can be aligned with blocks
         std::uint8_t   prog_queued;      // a progress notification is queued and not yet sent
         std::uint8_t   stale_flash;      // the session was started while flash operations / progress of an earlier session were in flight (labels only)
@@ -382,7 +383,7 @@ struct World
 
     void end_session()
     {
-        ref.synced = 0; ref.flushed = 0; ref.nprog = 0; ref.prog_ok = 0;
+        ref.synced = 0; ref.flushed = 0; ref.tentative = 0; ref.nprog = 0; ref.prog_ok = 0;
         ref.addr = ref.pend_base = 0; ref.crc = 0; ref.block = 0;
         memset( ref.pend, 0, sizeof ref.pend ); memset( ref.prog, 0, sizeof ref.prog );
     }
@@ -428,16 +429,18 @@ struct World
         }
         if ( !check_accesses( c, int( &e - &events[ 0 ] ) ) ) return;
 
-        // any control point write ends a read procedure and (except Flush) the clean part of a flash session
+        // any control point write ends a read procedure.  bootloader.md lets every control point procedure end the flash mode, bluetoe
+        // stays in flash mode for some (Get CRC, Start, Reset, unknown opcodes).  Both is fine: the reference is kept, and IF the
+        // next data write (or Flush) is accepted it has to continue exactly where the client is; if it is refused the session is over.
         end_read();
         if ( accepted && e.opcode == 5 && was_synced && !was_flushed )
         {
-            ref.flushed = 1;
+            ref.flushed = 1; ref.tentative = 0;
             if ( ref.addr != ref.pend_base )
             {
                 // Flush of a partially filled page
                 if ( !check_flashed_pages( c, 1, "Flush" ) ) return;
-                if ( ref.nprog < 4 ) { ref.prog[ ref.nprog ].crc = ref.crc; ref.prog[ ref.nprog ].consecutive = ref.block; ++ref.nprog; } else ref.prog_ok = 0;
+                if ( ref.prog_ok ) { if ( ref.nprog < 4 ) { ref.prog[ ref.nprog ].crc = ref.crc; ref.prog[ ref.nprog ].consecutive = ref.block; ++ref.nprog; } else ref.prog_ok = 0; }
             }
             else
             {
@@ -453,11 +456,18 @@ struct World
                 c.fail( "flash-content:unexpected-flash", mc::fmt( "start_flash called by %s", describe_event( e ).c_str() ) );
                 return;
             }
-            end_session();
+            if ( was_synced && !was_flushed && !( accepted && e.opcode == 3 && e.len == 1 + asz ) )
+            {
+                ref.tentative = 1;
+                ref.prog_ok   = 0;      // the procedure may have released the page buffers: progress notifications cannot be aligned any more
+                ref.nprog = 0; memset( ref.prog, 0, sizeof ref.prog );
+            }
+            else end_session();
         }
 
         if ( accepted && e.opcode == 3 && e.len == 1 + asz )
         {
+            end_session();
             ref.synced  = ref.start_class == S_INSIDE;
             ref.flushed = 0;
             ref.addr = ref.pend_base = e.a1;
@@ -527,6 +537,7 @@ struct World
             end_session();
             return;
         }
+        if ( ref.tentative ) { ref.tentative = 0; c.cls( "data:accepted-after-interleaved-control-point-procedure" ); }
         // clean session: bytes land at ref.addr...
         int pages = 0;
         for ( unsigned i = 0; i != e.len; ++i )
@@ -538,7 +549,7 @@ struct World
             if ( ref.addr % page == 0 )
             {
                 ++pages;
-                if ( ref.nprog < 4 ) { ref.prog[ ref.nprog ].crc = ref.crc; ref.prog[ ref.nprog ].consecutive = ref.block; ++ref.nprog; } else ref.prog_ok = 0;
+                if ( ref.prog_ok ) { if ( ref.nprog < 4 ) { ref.prog[ ref.nprog ].crc = ref.crc; ref.prog[ ref.nprog ].consecutive = ref.block; ++ref.nprog; } else ref.prog_ok = 0; }
                 ++ref.block;
             }
         }
@@ -734,7 +745,7 @@ struct World
     // Content and checksum chain must be what bootloader.md announces.  (state is restored afterwards)
     void drain( mc::Ctx& c )
     {
-        if ( !ref.synced || ref.flushed || ref.outstanding ) { c.obs = "no clean session"; return; }
+        if ( !ref.synced || ref.flushed || ref.outstanding || ref.tentative ) { c.obs = "no clean session"; return; }
         unsigned char keep_srv[ sizeof srv.raw ], keep_conn[ sizeof conn.raw ];
         const Ref keep_ref = ref;
         memcpy( keep_srv, srv.raw, sizeof srv.raw ); memcpy( keep_conn, conn.raw, sizeof conn.raw );
